@@ -64,7 +64,10 @@ use crate::generic::*;
 pub struct GenericBuilder<'a, 'b, Version, Purpose> {
     version: PhantomData<Version>,
     purpose: PhantomData<Purpose>,
+    #[cfg(not(rusty_paseto_verif))]
     claims: HashMap<String, Box<dyn erased_serde::Serialize + 'b>>,
+    #[cfg(rusty_paseto_verif)]
+    claims: HashMap<String, Box<dyn erased_serde::Serialize + 'b>, crate::verif_hooks::SimBuildHasher>,
     footer: Option<Footer<'a>>,
     implicit_assertion: Option<ImplicitAssertion<'a>>,
 }
@@ -74,7 +77,10 @@ impl<'a, 'b, Version, Purpose> GenericBuilder<'a, 'b, Version, Purpose> {
         Self {
             version: PhantomData::<Version>,
             purpose: PhantomData::<Purpose>,
+            #[cfg(not(rusty_paseto_verif))]
             claims: HashMap::with_capacity(10),
+            #[cfg(rusty_paseto_verif)]
+            claims: HashMap::with_capacity_and_hasher(10, crate::verif_hooks::SimBuildHasher::new()),
             footer: None,
             implicit_assertion: None,
         }
